@@ -10,10 +10,10 @@ OBLIGATIONS = []
 # the REAL arm text whatever constructs it uses.
 TWINS = {
     "vm": [
-        dict(name="verif_arm_call", file="vm.rs", fn="run", impl="VM", arm="OpCode::Call", sig="(&mut self) -> Result<(), Error>", tail="Ok(())"),
-        dict(name="verif_arm_return_value", file="vm.rs", fn="run", impl="VM", arm="OpCode::ReturnValue",
+        dict(name="verif_arm_call", file="vm.rs", fn="run_code", impl="VM", arm="OpCode::Call", sig="(&mut self) -> Result<(), Error>", tail="Ok(())"),
+        dict(name="verif_arm_return_value", file="vm.rs", fn="run_code", impl="VM", arm="OpCode::ReturnValue",
              sig="(&mut self, constants: &Vec<Object>, gc: &mut GC, final_result: Object) -> Result<(), Error>", tail="Ok(())"),
-        dict(name="verif_arm_return", file="vm.rs", fn="run", impl="VM", arm="OpCode::Return",
+        dict(name="verif_arm_return", file="vm.rs", fn="run_code", impl="VM", arm="OpCode::Return",
              sig="(&mut self, constants: &Vec<Object>, gc: &mut GC, final_result: Object) -> Result<(), Error>", tail="Ok(())"),
     ],
 }
@@ -164,9 +164,10 @@ V("O12.arms", ["C12", "C02", "C03", "C05"], "c12_calls", expect_verified=3,
   desc="Call: base = len-1-argc, args in place, remaining locals null, callee word gone, one frame pushed with the return address, everything below base unchanged, non-function -> TypeError, argc > slots or base > 65535 -> ArgumentError. Return(Value): stack == caller's stack ++ [result], frame popped, ip/bp restored, collector roots cover stack, constants, globals, last value and the returned value")
 K("O12.2k", ["C12", "C02"], "vm", "c12_call_twin", level="bounded", bound="1 argument, callee with 0..=3 slots, two caller slots", needs_fmt_stub=True,
   functions=["VM::run arm Call (compiled verbatim as a method, registry.TWINS)"], desc="bounded twin of the Call contract on the real arm text whatever its syntactic form")
-K("O12.3k", ["C12", "C02"], "vm", "c12_return_twin", level="bounded", bound="caller stack of 2 slots, callee activation of 0..=2 slots", needs_fmt_stub=True,
-  functions=["VM::run arm ReturnValue", "VM::run arm Return"], desc="bounded twin of the Return contracts on the real arm text")
-V("O02.arms", ["C02", "C10", "C11", "C06", "C14", "C13", "C05", "C04"], "c02_arms", expect_verified=42,
+for _n in range(3):
+    K("O12.3k.%d" % _n, ["C12", "C02"], "vm", "c12_return_twin_%d" % _n, level="bounded", bound="caller stack of 2 slots, callee activation of %d slots" % _n, needs_fmt_stub=True,
+      functions=["VM::run_code arm ReturnValue", "VM::run_code arm Return"], desc="bounded twin of the Return contracts on the real arm text")
+V("O02.arms", ["C02", "C10", "C11", "C06", "C14", "C13", "C05", "C03"], "c02_arms", expect_verified=42,
   functions=["VM::run arms: Const SetGlobal GetGlobal SetLocal GetLocal Jump JumpIfFalse Pop Null True False Add..Or (13) Not Negate CallBuiltin *LocalConst (11) Array IndexGet IndexSet Halt"],
   desc="42 arms, each: operands read from inside the code, stack delta stated over the whole old stack, operand ORDER of every binary / fused operator (left = lower slot / local, right = top / constant), jump targets, type errors of Not/Negate/JumpIfFalse, GetGlobal of an unset slot is a ReferenceError, Halt untraces the result")
 
@@ -224,15 +225,34 @@ K("O05.2a", ["C05"], "parser", "c05_function_params_progress", needs_fmt_stub=Tr
   desc="modular (advance feeds tokens from a ghost queue): for every 2-token continuation of `functie (` the parameter loop consumes a token per iteration or fails with a SyntaxError; never spins")
 
 # ---------------------------------------------------------------------------------------------
+# C03 / C04 collector
+# ---------------------------------------------------------------------------------------------
+K("O03.1", ["C03"], "gc", "c03_constructors_register", level="bounded", bound="one float, one empty array", functions=["Object::float", "Object::array", "GC::trace", "GC::maybe_trace"],
+  desc="heap constructors register their result exactly once; immediates never; maybe_trace does not register twice")
+# O03.2 (c03_run_universe3) and O04.3 (c04_untrace_result) are written in contracts/kani/gc.rs but NOT registered:
+# CBMC does not finish symbolic execution of GC::run / sweep / destroy (bitvec::BitVec resize / iter_zeros) within
+# 800 s even for a universe of three objects and a concrete root set (measured). The collector algorithm is
+# therefore not decided by any obligation.
+
+# ---------------------------------------------------------------------------------------------
 # per-property information for the evidence files
 # ---------------------------------------------------------------------------------------------
 NOT_APPLICABLE = {
     "C01": "relational claim over all programs (bytecode run == definitional evaluation of the tree): needs a verified semantics of VM::run as a whole and an inductive proof through compile_expression; neither function is within reach of Verus or Kani here (DESIGN.md s.1, s.5); its per-function ingredients are decided under C06/C10/C12/C13/C14/C15",
     "C08": "tokenisation and literal decoding live in Tokenizer::next / skip_while / read_str and parse_string_expression (Chars iterators, str slicing, String::push/replace): no Verus model exists for them and CBMC does not finish Tokenizer::next even on 2 symbolic ASCII bytes with the Unicode predicates stubbed (> 300 s, measured) nor str::chars().count() on concrete 2-character texts; the only decidable fragment (is_whitespace for every char) is reported under C07 (O07.4w). Two genuine escape-decoding defects found by reading were repaired (known-findings.txt)",
+    "C04": "reclamation of garbage and the emptiness of the heap after a run are properties of GC::sweep / destroy / Drop and of Object::free over the managed list: bitvec::BitVec and iterator adapters have no Verus model and CBMC does not finish their symbolic execution even for a universe of three objects with a concrete root set (> 800 s, measured; harnesses kept unregistered in contracts/kani/gc.rs). The fragments that are decidable (constructors register every allocation once; Halt untraces the result; root sets) are reported under C03. The collector of the pinned tree never freed anything and was repaired (known-findings.txt); valgrind runs on the examples are recorded in DESIGN.md but are not part of any check",
     "C16": "quantifies over thread schedules, process histories and build profiles: Kani has no thread support, Verus would need the code rewritten onto its permission types, neither observes two build profiles (DESIGN.md s.5)",
 }
 
 PROPERTIES = {
+    "C03": {
+        "level": "proof",
+        "claim": "PARTIAL. Proved (Verus, verbatim ReturnValue / Return arms, stacks of every size): at both collection points the root set handed to the collector is exactly the caller's operand stack, the constants, the globals, the last statement value and - for ReturnValue - the value being returned; Halt untraces the result before handing it out. Checked (Kani, bounded): every heap constructor registers its result with the collector exactly once and maybe_trace never registers an object twice. NOT decided: the collector algorithm itself (mark / sweep / untrace / destroy).",
+        "note": "GC::run / mark / sweep / destroy use bitvec::BitVec and iterator adapters: no Verus model, and CBMC does not finish their symbolic execution even for three objects (> 800 s, measured). A change confined to gc.rs's mark/sweep is therefore NOT detected. The pinned tree's collector was unusable (mark indexed the bitmap through an unrelated address, nothing was ever freed): repaired by fix commits, checked with valgrind on the examples (not part of the check).",
+        "design_ref": "DESIGN.md 3.9",
+        "undecided": ["GC::run / mark / sweep / untrace / destroy (collector algorithm)", "no other Rust local holds the only reference to an object across gc.run", "index_set_string aliasing (strings are out of reach)"],
+        "assumptions": ["GC::run keeps exactly what is reachable from the roots it is given (uninterpreted in the Verus units)"],
+    },
     "C05": {
         "level": "proof",
         "claim": "PARTIAL, per function: every function / match arm under contract in this framework (operators, conversions, index functions, all 45 machine arms, call/return, the compiler arms and helpers listed in the evidence) is proved free of panics, arithmetic overflow, out-of-bounds access and non-termination under its stated precondition - Kani checks every unwrap / index / overflow / unimplemented! / debug_assert on the real code, Verus every overflow / index / unwrap precondition on the extracted text with panic! sites turned into `requires false` calls. The defects this exposed (13 panics / hangs on ordinary inputs) are repaired (known-findings.txt).",
